@@ -23,6 +23,10 @@ CFG = dict(
         # orientation
         "table_triangle_outward_corners", "table_triangle_outward", "emitted_triangle_outward",
         "volume_translation_invariant", "march_volume_translation_invariant", "table_inside_tests",
+        # volume of the cell solid (table-level corner facts in Lemmas/MarchVolume.lean, ~7 min of kernel time, cached)
+        "Tab.table_poly_wellformed", "Tab.table_cell_volume_corners_ff", "Tab.table_cell_volume_corners_ft",
+        "Tab.table_cell_volume_corners_tf", "Tab.table_cell_volume_corners_tt", "Tab.table_cell_volume_positive_corner",
+        "Tab.table_det_codes", "Tab.table_pos_codes", "cell_volume_nonneg",
         # exactly the cells the real marcher visits
         "marched_perm_box", "marched_closed",
     ],
@@ -32,7 +36,9 @@ CFG = dict(
     helper_theorems=["cells_glue_face", "cell_edges_nodup", "table_segs_unit", "table_shared_edges", "table_case_edges_nodup",
                      "table_canon_no_antiparallel", "table_tri_edges_lt", "fetchCell_eq_global", "addField_allocates_neighbourhood",
                      "march_weld_balanced", "table_triangle_outward_corners", "table_triangle_outward", "march_volume_translation_invariant",
-                     "marched_perm_box", "table_inside_tests"],
+                     "marched_perm_box", "table_inside_tests", "Tab.table_poly_wellformed", "Tab.table_det_codes", "Tab.table_pos_codes",
+                     "Tab.table_cell_volume_corners_ff", "Tab.table_cell_volume_corners_ft", "Tab.table_cell_volume_corners_tf",
+                     "Tab.table_cell_volume_corners_tt"],
     streams=[dict(name="c09", n=dict(quick=8, thorough=80), timeout=dict(quick=600, thorough=3600))],
     trusted=T_COMMON + [
         "engine F extractor /verif/go/facts/c09.go (go/parser; every unexpected AST shape is an error)",
@@ -40,7 +46,7 @@ CFG = dict(
         "driver's n log n evaluation of Closed and of Balanced (cross-checked against the quadratic specification predicate on meshes <= 150 triangles on every run)",
     ],
     residue=[
-        "ORIENTATION: proved per triangle (emitted_triangle_outward: for every grid, cutoff, cell and emitted triangle, at the interpolated positions, normal . (d0+d1+d2) >= 0, and > 0 when no outside end sample equals the cutoff; d_i = inside->outside direction of the lattice edge of corner i) and origin-independence of the signed volume of any balanced surface (volume_translation_invariant). NOT proved: that the total signed volume is POSITIVE (a global statement: it would need the per-cell volume identity 'cell triangles + canonical face polygons bound the inside polyhedron of the cell', not attempted); decided per run by c09.holds.outward (signed volume > 0, Float) and, per triangle, by c09.holds.tri_outward. The stronger per-edge form normal . d_i > 0 is FALSE for this table (72 of 820 triangles, e.g. row 23 triangle (2,9,7)); the sum form is what holds",
+        "ORIENTATION: proved per triangle (emitted_triangle_outward: for every grid, cutoff, cell and emitted triangle, at the interpolated positions, normal . (d0+d1+d2) >= 0, and > 0 when no outside end sample equals the cutoff; d_i = inside->outside direction of the lattice edge of corner i) and origin-independence of the signed volume of any balanced surface (volume_translation_invariant). PER-CELL VOLUME (new): cell_volume_nonneg - for every sign pattern and all positions tau_e in [0,1] of the vertices on the sign-changing cube edges, 6*volume (against the cell's low corner) of the table triangles plus the cap triangles of the three high faces is >= 0; proved by multi-affinity (each det is affine in each parameter, triangles have three different corners) from the 36450 kernel-evaluated corner values (Tab.table_cell_volume_corners_*); Tab.table_cell_volume_positive_corner: a positive corner exists unless the cell is all-outside. The caps are well defined for every face pattern including the ambiguous ones (chain = edge pieces next to inside corners + reversed table segments; closedness of the cell polyhedron polyTris checked numerically for all 256 cases, not as a theorem: the balancedB decide timed out in the kernel). NOT proved: C09_volume_positive_full (a def) - that the TOTAL signed volume of a box is positive: missing (i) strict positivity of the cell volume in the open parameter cube (converse corner correspondence), (ii) the sum over the box (caps of neighbouring cells cancel, caps vanish on the boundary layer, each closed cell solid may be translated to its own low corner), (iii) that the three low-face caps contribute nothing against the cell's low corner is used informally (they lie in the coordinate planes through it); decided per run by c09.holds.outward (signed volume > 0, Float) and, per triangle, by c09.holds.tri_outward. The stronger per-edge form normal . d_i > 0 is FALSE for this table (72 of 820 triangles, e.g. row 23 triangle (2,9,7)); the sum form is what holds",
         "c09.holds.tri_outward skips triangles with a corner within the weld radius of a lattice corner or on several sign-changing edges (their lattice edge is not determined by the position); epsilon 1e-6 cell^2",
         "TRANSFER from lattice-edge ids to the real mesh: the Balanced half transfers unconditionally (weld_preserves_balance / march_weld_balanced: any vertex identification, dropping triangles with two equal corners); 'exactly one' is PROVED to transfer only under the hypothesis that the float vertex map is injective on the sign-changing lattice edges (march_weld_closed, weld_preserves_nodup) - i.e. when no two distinct sign-changing lattice edges produce vertices in one weld cell; the hypothesis is sufficient, not necessary, it is NOT a theorem and it is FALSE in general: a sample EQUAL to the cutoff gives interpolation parameter 0/1, so up to six lattice edges produce the same corner position. Observed: lattice-aligned single shapes, shapes touching at a point/edge/corner stay closed (strict oracle c09.holds.closed on the lattice-aligned classes, both tiers, single block and across seams); two inside regions separated only by samples equal to the cutoff (two boxes touching at a lattice face) are welded into coincident sheets: balanced, but 32 directed edges matched twice = known finding C09-touching-at-cutoff (op c09.holds.closed_touching_at_cutoff_witness, replayed every run; c09.holds.balanced is true on it). SECOND failing class found by the lattice-aligned generators = known finding C09-cutoff-noise-line: an axis-aligned capsule with whole-cell radius on a lattice line at 5 or 10 cubes per unit has a whole lattice LINE of samples at -2.2e-16 (float noise below the cutoff); the one-sample ridge is welded flat, 76 directed edges matched twice, balanced (op c09.holds.closed_cutoff_noise_line_witness; the same capsules at 1, 2, 4, 8 cubes per unit are exact and pass the strict oracle)",
         "that LookupOrAdd (1e-4) / WeldByFloat3Attribute (1e-3) give ONE id to the two float computations of one lattice edge (interp_symmetric is the exact-arithmetic statement) and do not merge distinct lattice edges when cell size >> 1e-3 and no sample is within float noise of the cutoff: observed by the oracles on the final mesh, not proved",
